@@ -244,6 +244,68 @@ class C05Adaptive(Harness):
 
 
 @register
+class C05Adaptive2D(Harness):
+    prop = "C05"
+    group = "adaptive2d"
+    bounds_doc = "two adaptive fixed-width 2D histograms on one grid (width 1 on axis 0, 0.5 on axis 1), shapes 1x1 / 1x2 / 2x1 with symbolic integer offsets in [-2,2] per axis and symbolic contents; a+b and b+a: per-axis union of the ranges, every operand cell keeps its interval, nothing is lost, operands unchanged"
+
+    W = (1.0, 0.5)
+
+    def instances(self, tier):
+        shapes = [((1, 1), (1, 1)), ((1, 2), (1, 1))] if tier == "quick" else [((1, 1), (1, 1)), ((1, 2), (1, 1)), ((2, 1), (1, 2)), ((1, 2), (2, 1))]
+        for sa, sb in shapes:
+            yield f"adapt2d-{sa[0]}x{sa[1]}-{sb[0]}x{sb[1]}", dict(shapes=[list(sa), list(sb)])
+
+    def declare(self, cx, p):
+        return {"t": [[cx.pyint(f"t{i}_{k}", -2, 2) for k in range(2)] for i in range(2)],
+                "f": [declare_cells(cx, f"{'ab'[i]}f", p["shapes"][i], "int") for i in range(2)]}
+
+    def _mk(self, E, p, x, i):
+        np = E.np
+        FWB = E.mod("physt.binnings").FixedWidthBinning
+        H2 = E.mod("physt.histogram_nd").Histogram2D
+        sh = p["shapes"][i]
+        return H2([FWB(bin_width=self.W[k], bin_count=sh[k], bin_times_min=x["t"][i][k], adaptive=True) for k in range(2)], np.asarray(nested(x["f"][i], sh), dtype=int))
+
+    def drive(self, E, p, x):
+        a, b = self._mk(E, p, x, 0), self._mk(E, p, x, 1)
+        obs = {}
+        for key, fn in (("r1", lambda: a + b), ("r2", lambda: b + a)):
+            r = E.attempt(fn)
+            obs[key] = {"raised": r} if isinstance(r, Raised) else snapnd(E, r)
+        obs["after"] = [snapnd(E, a), snapnd(E, b)]
+        return obs
+
+    def oracle(self, cx, p, x, obs):
+        sh = p["shapes"]
+        t = [[cx.t(v) for v in x["t"][i]] for i in range(2)]
+        F = [{idx: cx.t(v) for idx, v in zip(product_indices(sh[i]), x["f"][i])} for i in range(2)]
+        for key in ("r1", "r2"):
+            r = obs[key]
+            yield f"{key}_no_exception", "raised" not in r
+            if "raised" in r:
+                continue
+            shape = [len(b) for b in r["bins"]]
+            conj = []
+            lo = [z3.If(t[0][k] < t[1][k], t[0][k], t[1][k]) for k in range(2)]
+            hi = [z3.If(t[0][k] + sh[0][k] > t[1][k] + sh[1][k], t[0][k] + sh[0][k], t[1][k] + sh[1][k]) for k in range(2)]
+            for k in range(2):
+                conj.append(hi[k] - lo[k] == shape[k])
+                for j in range(shape[k]):
+                    conj.append(z3.And(cx.t(r["bins"][k][j][0]) == (lo[k] + j) * self.W[k], cx.t(r["bins"][k][j][1]) == (lo[k] + j + 1) * self.W[k]))
+            yield f"{key}_union_grid", z3.And(conj)
+            for idx in product_indices(shape):
+                g = [lo[k] + idx[k] for k in range(2)]
+                ref = zsum(z3.If(z3.And([g[k] - t[i][k] == cell[k] for k in range(2)]), F[i][cell], 0) for i in range(2) for cell in F[i])
+                yield f"{key}_content[{idx[0]},{idx[1]}]", cx.eq(getcell(r["freq"], idx), ref)
+            yield f"{key}_total", cx.eq(r["total"], zsum(v for i in range(2) for v in F[i].values()))
+        for i in range(2):
+            a = obs["after"][i]
+            ok = [len(b) for b in a["bins"]] == sh[i]
+            yield f"operand_unchanged[{i}]", z3.And([z3.BoolVal(ok)] + ([cx.eq(getcell(a["freq"], idx), F[i][idx]) for idx in F[i]] + [cx.t(a["bins"][k][0][0]) == t[i][k] * self.W[k] for k in range(2)] if ok else []))
+
+
+@register
 class C05GridMismatch(Harness):
     prop = "C05"
     group = "gridmismatch"
